@@ -64,6 +64,15 @@ func Seed() uint64 {
 	return 1
 }
 
+// CommandFor builds the command that runs one vsim sub-command in a worker
+// process. The E4 test binary replaces it (its sub-commands are passed through
+// an environment variable of a `go test` binary).
+var CommandFor = func(exe string, args []string) *exec.Cmd {
+	c := exec.Command(exe, args...)
+	c.Env = os.Environ()
+	return c
+}
+
 type workerOut struct {
 	sum   *Summary
 	err   string
@@ -399,8 +408,8 @@ func ratio(a, b int64) float64 {
 }
 
 func runWorkerProc(exe string, args []string, hard time.Duration, prog string, hang time.Duration) workerOut {
-	cmd := exec.Command(exe, args...)
-	cmd.Env = append(os.Environ(), "GOMAXPROCS=1")
+	cmd := CommandFor(exe, args)
+	cmd.Env = append(cmd.Env, "GOMAXPROCS=1")
 	var stdout, stderr bytes.Buffer
 	cmd.Stdout = &stdout
 	cmd.Stderr = &stderr
@@ -529,8 +538,8 @@ func runReplay(exe, path string) (int, string) {
 			mem, hang = p.MemLimitMiB, p.HangSeconds
 		}
 	}
-	cmd := exec.Command(exe, "replay", "-mem", strconv.Itoa(mem), path)
-	cmd.Env = append(os.Environ(), "GOMAXPROCS=1")
+	cmd := CommandFor(exe, []string{"replay", "-mem", strconv.Itoa(mem), path})
+	cmd.Env = append(cmd.Env, "GOMAXPROCS=1")
 	var out bytes.Buffer
 	cmd.Stdout = &out
 	cmd.Stderr = &out
